@@ -19,6 +19,8 @@ const TVFS_FOLDER_SIZE_MASK: u32 = 0x7FFF_FFFF;
 const NODE_VALUE_MARKER: u8 = 0xFF;
 /// Path separator byte.
 const PATH_SEPARATOR: u8 = 0x00;
+/// Longest name fragment: its length byte must differ from `NODE_VALUE_MARKER`.
+const MAX_NAME_FRAGMENT: usize = 254;
 
 /// Path table storing the recursive prefix tree and resolved file entries.
 #[derive(Debug, Clone)]
@@ -281,18 +283,12 @@ fn build_entry(out: &mut Vec<u8>, node: &PathTreeNode) {
     if !name_bytes.is_empty() {
         out.push(PATH_SEPARATOR);
 
-        // Write name fragment: length + bytes
-        // For names longer than 255 bytes, we'd need to split into fragments.
-        // In practice TVFS names are short.
-        if name_bytes.len() <= 255 {
-            out.push(name_bytes.len() as u8);
-            out.extend_from_slice(name_bytes);
-        } else {
-            // Split into 255-byte chunks
-            for chunk in name_bytes.chunks(255) {
-                out.push(chunk.len() as u8);
-                out.extend_from_slice(chunk);
-            }
+        // Write name fragments: length + bytes. A length byte of 0xFF would be
+        // read back as the node value marker, so a fragment holds at most 254
+        // bytes; longer names are split (the parser concatenates fragments).
+        for chunk in name_bytes.chunks(MAX_NAME_FRAGMENT) {
+            out.push(chunk.len() as u8);
+            out.extend_from_slice(chunk);
         }
     }
 
